@@ -4,8 +4,9 @@ mod hash_union;
 mod models;
 mod panic;
 
-use proc_macro2::{Ident, Span};
-use syn::{ext::IdentExt, Data, DeriveInput, GenericParam, Generics, Meta};
+use proc_macro2::Ident;
+use quote::ToTokens;
+use syn::{Data, DeriveInput, GenericParam, Meta};
 
 use super::TraitHandler;
 use crate::Trait;
@@ -34,18 +35,19 @@ impl TraitHandler for HashHandler {
     }
 }
 
-/// The name of the `Hasher` type parameter of the generated `hash` method, which must not be the
-/// same as a generic parameter of the type itself.
-fn hasher_ident(generics: &Generics) -> Ident {
-    let mut name = String::from("H");
+/// The name of the `Hasher` type parameter of the generated `hash` method. It must not be the
+/// name of a generic parameter of the type itself, and it must not occur in the paths of the custom
+/// methods, which are written inside that method (`method(hash_as::<H>)` means the user's `H`).
+fn hasher_ident(ast: &DeriveInput) -> Ident {
+    let mut tokens = crate::common::fresh::trait_attribute_tokens(ast, "Hash");
 
-    while generics.params.iter().any(|param| match param {
-        GenericParam::Type(ty) => ty.ident.unraw() == name,
-        GenericParam::Const(c) => c.ident.unraw() == name,
-        GenericParam::Lifetime(_) => false,
-    }) {
-        name.push('H');
+    for param in ast.generics.params.iter() {
+        match param {
+            GenericParam::Type(ty) => ty.ident.to_tokens(&mut tokens),
+            GenericParam::Const(c) => c.ident.to_tokens(&mut tokens),
+            GenericParam::Lifetime(_) => (),
+        }
     }
 
-    Ident::new(&name, Span::call_site())
+    crate::common::fresh::fresh_ident(&tokens, "H", 'H')
 }
